@@ -1328,7 +1328,10 @@ int tls13_record_get_handshake_finished(const uint8_t *record,
 int tls13_padding_len_rand(size_t *padding_len)
 {
 	uint8_t val;
-	rand_bytes(&val, 1);
+	if (rand_bytes(&val, 1) != 1) {
+		error_print();
+		return -1;
+	}
 	*padding_len = val % 128;
 	return 1;
 }
@@ -1544,8 +1547,14 @@ int tls13_do_connect(TLS_CONNECT *conn)
 	// send ClientHello
 	tls_trace("send ClientHello\n");
 	tls_record_set_protocol(record, TLS_protocol_tls1);
-	rand_bytes(client_random, 32); // TLS 1.3 Random 不再包含 UNIX Time
-	sm2_key_generate(&client_ecdhe);
+	if (rand_bytes(client_random, 32) != 1) {
+		error_print();
+		goto end;
+	} // TLS 1.3 Random 不再包含 UNIX Time
+	if (sm2_key_generate(&client_ecdhe) != 1) {
+		error_print();
+		goto end;
+	}
 	tls13_client_hello_exts_set(client_exts, &client_exts_len, sizeof(client_exts), &(client_ecdhe.public_key));
 	tls_record_set_handshake_client_hello(record, &recordlen,
 		TLS_protocol_tls12, client_random, NULL, 0,
@@ -1838,7 +1847,10 @@ int tls13_do_connect(TLS_CONNECT *conn)
 			goto end;
 		}
 		tls13_record_trace(stderr, record, recordlen, 0, 0);
-		tls13_padding_len_rand(&padding_len);
+		if (tls13_padding_len_rand(&padding_len) != 1) {
+			error_print();
+			goto end;
+		}
 		if (tls13_record_encrypt(&conn->client_write_key, conn->client_write_iv,
 			conn->client_seq_num, record, recordlen, padding_len,
 			enced_record, &enced_recordlen) != 1) {
@@ -1866,7 +1878,10 @@ int tls13_do_connect(TLS_CONNECT *conn)
 			goto end;
 		}
 		tls13_record_trace(stderr, record, recordlen, 0, 0);
-		tls13_padding_len_rand(&padding_len);
+		if (tls13_padding_len_rand(&padding_len) != 1) {
+			error_print();
+			goto end;
+		}
 		if (tls13_record_encrypt(&conn->client_write_key, conn->client_write_iv,
 			conn->client_seq_num, record, recordlen, padding_len,
 			enced_record, &enced_recordlen) != 1) {
@@ -1891,7 +1906,10 @@ int tls13_do_connect(TLS_CONNECT *conn)
 		goto end;
 	}
 	tls13_record_trace(stderr, record, recordlen, 0, 0);
-	tls13_padding_len_rand(&padding_len);
+	if (tls13_padding_len_rand(&padding_len) != 1) {
+		error_print();
+		goto end;
+	}
 	if (tls13_record_encrypt(&conn->client_write_key, conn->client_write_iv,
 		conn->client_seq_num, record, recordlen, padding_len,
 		enced_record, &enced_recordlen) != 1) {
@@ -2066,8 +2084,14 @@ int tls13_do_accept(TLS_CONNECT *conn)
 
 	// 2. Send ServerHello
 	tls_trace("send ServerHello\n");
-	rand_bytes(server_random, 32);
-	sm2_key_generate(&server_ecdhe);
+	if (rand_bytes(server_random, 32) != 1) {
+		error_print();
+		goto end;
+	}
+	if (sm2_key_generate(&server_ecdhe) != 1) {
+		error_print();
+		goto end;
+	}
 	if (tls13_process_client_hello_exts(client_exts, client_exts_len,
 		&server_ecdhe, &client_ecdhe_public,
 		server_exts, &server_exts_len, sizeof(server_exts)) != 1) {
@@ -2127,7 +2151,10 @@ int tls13_do_accept(TLS_CONNECT *conn)
 	tls_record_set_protocol(record, TLS_protocol_tls12);
 	tls13_record_set_handshake_encrypted_extensions(record, &recordlen);
 	tls13_record_trace(stderr, record, recordlen, 0, 0);
-	tls13_padding_len_rand(&padding_len);
+	if (tls13_padding_len_rand(&padding_len) != 1) {
+		error_print();
+		goto end;
+	}
 	if (tls13_record_encrypt(&conn->server_write_key, conn->server_write_iv,
 		conn->server_seq_num, record, recordlen, padding_len,
 		enced_record, &enced_recordlen) != 1) {
@@ -2156,7 +2183,10 @@ int tls13_do_accept(TLS_CONNECT *conn)
 			goto end;
 		}
 		tls13_record_trace(stderr, record, recordlen, 0, 0);
-		tls13_padding_len_rand(&padding_len);
+		if (tls13_padding_len_rand(&padding_len) != 1) {
+			error_print();
+			goto end;
+		}
 		if (tls13_record_encrypt(&conn->server_write_key, conn->server_write_iv,
 			conn->server_seq_num, record, recordlen, padding_len,
 			enced_record, &enced_recordlen) != 1) {
@@ -2180,7 +2210,10 @@ int tls13_do_accept(TLS_CONNECT *conn)
 		goto end;
 	}
 	tls13_record_trace(stderr, record, recordlen, 0, 0);
-	tls13_padding_len_rand(&padding_len);
+	if (tls13_padding_len_rand(&padding_len) != 1) {
+		error_print();
+		goto end;
+	}
 	if (tls13_record_encrypt(&conn->server_write_key, conn->server_write_iv,
 		conn->server_seq_num, record, recordlen, padding_len,
 		enced_record, &enced_recordlen) != 1) {
@@ -2206,7 +2239,10 @@ int tls13_do_accept(TLS_CONNECT *conn)
 		goto end;
 	}
 	tls13_record_trace(stderr, record, recordlen, 0, 0);
-	tls13_padding_len_rand(&padding_len);
+	if (tls13_padding_len_rand(&padding_len) != 1) {
+		error_print();
+		goto end;
+	}
 	if (tls13_record_encrypt(&conn->server_write_key, conn->server_write_iv,
 		conn->server_seq_num, record, recordlen, padding_len,
 		enced_record, &enced_recordlen) != 1) {
@@ -2234,7 +2270,10 @@ int tls13_do_accept(TLS_CONNECT *conn)
 		goto end;
 	}
 	tls13_record_trace(stderr, record, recordlen, 0, 0);
-	tls13_padding_len_rand(&padding_len);
+	if (tls13_padding_len_rand(&padding_len) != 1) {
+		error_print();
+		goto end;
+	}
 	if (tls13_record_encrypt(&conn->server_write_key, conn->server_write_iv,
 		conn->server_seq_num, record, recordlen, padding_len,
 		enced_record, &enced_recordlen) != 1) {
